@@ -35,6 +35,12 @@ func c01Note(c *Ctx, res *Resolved) {
 func checkC01(c *Ctx) {
 	c.Rule = "seeded populations of 1-4 configured directories (missing, repeated, non-clean spellings) with valid/invalid/non-Spec/nested files and non-regular entries (FIFO, symbolic link to a directory) over a small pool of kinds and device names (so that definitions collide), each followed by 1-4 change steps (file-system changes with a refresh after each, or a reconfiguration of the same cache with a permuted / shortened / repeated directory list); manual mode and auto-refresh mode (logical quiescence via sentinel + watch.event hook, then Refresh); distinct_nontrivial = distinct population shapes (per device: directory index -> number of defining files, plus presence of invalid/ignored/repeated/missing entries) seen at a comparison point"
 	c.Assume("M-RESOLVE (gen_dirs.go) transcribes the statement of C01", "populations are bounded: <=4 directories, <=5 Spec files per directory, <=3 devices per file", "symlinked directories are outside the generator")
+	// the package defaults point at a populated directory: nothing of it may ever show
+	// up in a cache that was given a directory list of its own, the empty one included
+	trap := filepath.Join(c.Scratch, "package-defaults")
+	must(os.MkdirAll(trap, 0o755))
+	must(os.WriteFile(filepath.Join(trap, "trap.json"), []byte(`{"cdiVersion":"0.6.0","kind":"trap.org/dev","devices":[{"name":"t","containerEdits":{"env":["TRAP=1"]}}]}`), 0o644))
+	cdi.DefaultSpecDirs = []string{trap}
 	nManual := c.pick(2500, 40000)
 	nAuto := c.pick(250, 4000)
 	c.RunCases("manual", nManual, 0, func(cs *Case) {
@@ -83,6 +89,22 @@ func checkC01(c *Ctx) {
 			}
 			if k == 0 {
 				c.Sample(3, map[string]any{"mode": "manual", "configured_dirs": p.Conf, "shape": res.Shape, "devices_resolved": len(res.Devices)})
+			}
+		}
+		if chance(r, 8) {
+			// the empty directory list is a list too: nothing is configured, nothing resolves
+			mode := pickStr(r, "reconfigured", "new")
+			ec := cache
+			if mode == "new" {
+				ec, _ = cdi.NewCache(cdi.WithSpecDirs(), cdi.WithAutoRefresh(chance(r, 30)))
+				defer releaseCache(ec)
+			} else {
+				ec.Configure(cdi.WithSpecDirs())
+			}
+			ec.Refresh()
+			c.Count("empty_directory_lists", 1)
+			if devs, vend, dirs := ec.ListDevices(), ec.ListVendors(), ec.GetSpecDirectories(); len(devs)+len(vend)+len(dirs) > 0 || ec.GetDevice("trap.org/dev=t") != nil {
+				cs.Violation("resolution", map[string]string{"mode": "empty-list"}, fmt.Sprintf("a cache (%s) with an empty directory list has directories %v, devices %v, vendors %v", mode, dirs, devs, vend), map[string]any{"history": history})
 			}
 		}
 	})
@@ -148,6 +170,7 @@ func checkC01(c *Ctx) {
 		c.Floor(k, 5)
 	}
 	c.Floor("comparisons_auto", 20)
+	c.Floor("empty_directory_lists", 20)
 	c.Floor("reconfigurations", 20)
 	c.Floor("reconfigurations_auto", 5)
 	c.Floor("watcher_event:CREATE", 1)
